@@ -738,4 +738,59 @@ theorem C01_from_genesis_any_length (subs : List (Hdr × Bool)) (hq : QuietClean
   obtain ⟨lo, h0, _, hcov, hlk⟩ := forest_best_chain _ hf htm.1
   exact ⟨htm, lo, h0, hcov, hlk⟩
 
+/-! ### forest histories with explicit maintenance -/
+
+inductive FOp
+  | submit (h : Hdr) (ok : Bool)
+  | clean (depth : Int)
+  | save
+
+def applyF (r : Repo) : FOp → Repo
+  | .submit h ok => (processHeader r h ok).1
+  | .clean d => (cleanWith r d).1
+  | .save => (save r).1
+
+/-- the history condition: no internal error; every Clean (explicit or automatic) and every Save runs while
+    no reorganisation is pending (the best branch is the root branch heading the list). -/
+def FHist : Repo → List FOp → Prop
+  | _, [] => True
+  | r, op :: rest =>
+    (match op with
+     | .submit h ok => (processHeader r h ok).2.verdict.settled = true ∧ CleanRootFirst r h ok
+     | .clean d => 0 ≤ d ∧ RootFirst r
+     | .save => RootFirst r) ∧
+    FHist (applyF r op) rest
+
+theorem tipMax_of_frame (r r' : Repo) (hm : TipMax r) (hb : r'.branches = r.branches) (hl : r'.longest = r.longest)
+    (hw : ∀ x ∈ r.branches, lastWork r'.arena x = lastWork r.arena x) : TipMax r' := by
+  obtain ⟨hmem, wl, hwl, hall⟩ := hm
+  refine ⟨by rw [hb, hl]; exact hmem, wl, by rw [hl, hw _ hmem]; exact hwl, ?_⟩
+  intro b hbm
+  rw [hb] at hbm
+  obtain ⟨wb, h1, h2⟩ := hall b hbm
+  exact ⟨wb, by rw [hw b hbm]; exact h1, h2⟩
+
+/-- **C01 over forest histories with maintenance**: submissions (forks, overtakes, automatic cleans), explicit
+    Cleans with any depth and Saves — complete or failed at any stage —, from any well-linked state with a
+    maximal tip (genesis, or what Load builds from any consistent image), of any length: the tracked forest
+    stays well linked and the reported tip maximal, as long as every Clean and Save runs while no
+    reorganisation is pending. -/
+theorem C01_forest_ops (ops : List FOp) : ∀ (r : Repo), ForestOK r → TipMax r → FHist r ops →
+    ForestOK (ops.foldl applyF r) ∧ TipMax (ops.foldl applyF r) := by
+  induction ops with
+  | nil => intro r hf hm _; exact ⟨hf, hm⟩
+  | cons op rest ih =>
+    intro r hf hm hh
+    obtain ⟨hop, hrest⟩ := hh
+    simp only [List.foldl_cons]
+    cases op with
+    | submit h ok =>
+      exact ih _ (forestOK_processHeader_clean r h ok hf hop.2) (C01_tipmax_step_clean r h ok hf hm hop.1 hop.2) hrest
+    | clean d =>
+      obtain ⟨h1, h2, h3, h4⟩ := forestOK_cleanWith r hf hop.2 d hop.1
+      exact ih _ h1 (tipMax_of_frame r _ hm h2 h3 h4) hrest
+    | save =>
+      obtain ⟨h1, h2, h3⟩ := save_frame_rootFirst r hop
+      exact ih _ (forestOK_of_frame r _ hf h1 h2) (tipMax_of_frame r _ hm h2 h3 (fun x _ => by show lastWork (save r).1.arena x = _; rw [h1])) hrest
+
 end BRV.Repo
